@@ -190,8 +190,8 @@ func genFilter(n int) {
 	p("func new%s%s(env *Env, cs []ct.Comp) Filter {\n\treturn &%s%s{env: env, f: ecs.NewFilter%d%s(env.W), cs: cs, all: append([]ct.Comp{}, cs...)}\n}\n\n", strings.Title(fn), brA, fn, br, n, br)
 	recv := fmt.Sprintf("func (x *%s%s)", fn, br)
 	p("%s Comps() []ct.Comp { return x.cs }\n", recv)
-	p("%s With(cs ...ct.Comp) { x.f.With(compsOf(cs)...); x.all = append(x.all, cs...) }\n", recv)
-	p("%s Without(cs ...ct.Comp) { x.f.Without(compsOf(cs)...) }\n", recv)
+	p("%s With(cs ...ct.Comp) { Spread(cs, func(s []ecs.Comp) { x.f.With(s...) }); x.all = append(x.all, cs...) }\n", recv)
+	p("%s Without(cs ...ct.Comp) { Spread(cs, func(s []ecs.Comp) { x.f.Without(s...) }) }\n", recv)
 	p("%s Exclusive() { x.f.Exclusive() }\n", recv)
 	p("%s Relations(rels []RelArg) { x.f.Relations(x.env.rels(x.all, rels)...) }\n", recv)
 	p("%s Register() { x.f.Register() }\n", recv)
@@ -229,7 +229,7 @@ func genExch(n int) {
 	addrs := rep(n, func(i int) string { return fmt.Sprintf("&v%d", i) }, ", ")
 	name := fmt.Sprintf("exch%dW", n)
 	p("// ---- Exchange%d\n\ntype %s[%s] struct {\n\tenv *Env\n\tx *ecs.Exchange%d[%s]\n\tcs []ct.Comp\n\trm []ct.Comp\n}\n\n", n, name, TA, n, T)
-	p("func new%s[%s](env *Env, cs, rm []ct.Comp) Exchanger {\n\tex := ecs.NewExchange%d[%s](env.W)\n\tif len(rm) > 0 {\n\t\tex.Removes(compsOf(rm)...)\n\t}\n\treturn &%s[%s]{env: env, x: ex, cs: cs, rm: rm}\n}\n\n", strings.Title(name), TA, n, T, name, T)
+	p("func new%s[%s](env *Env, cs, rm []ct.Comp) Exchanger {\n\tex := ecs.NewExchange%d[%s](env.W)\n\t// Removes \"can be called multiple times in chains, or once with multiple arguments\": 2 components are\n\t// given in two chained calls, 3 or more in a chained call followed by a multi-argument call\n\tif len(rm) >= 2 {\n\t\tex = ex.Removes(compsOf(rm[:1])...)\n\t\tSpread(rm[1:], func(s []ecs.Comp) { ex = ex.Removes(s...) })\n\t} else if len(rm) == 1 {\n\t\tSpread(rm, func(s []ecs.Comp) { ex = ex.Removes(s...) })\n\t}\n\treturn &%s[%s]{env: env, x: ex, cs: cs, rm: rm}\n}\n\n", strings.Title(name), TA, n, T, name, T)
 	recv := fmt.Sprintf("func (x *%s[%s])", name, T)
 	p("%s Comps() []ct.Comp { return x.cs }\n", recv)
 	p("%s Removes() []ct.Comp { return x.rm }\n", recv)
@@ -252,9 +252,9 @@ func genObs(n int) {
 	p("func new%s[%s](env *Env, evt ecs.EventType, cs []ct.Comp) Observer {\n\treturn &%s[%s]{env: env, o: ecs.Observe%d[%s](evt), cs: cs}\n}\n\n", strings.Title(name), TA, name, T, n, T)
 	recv := fmt.Sprintf("func (x *%s[%s])", name, T)
 	p("%s Comps() []ct.Comp { return x.cs }\n", recv)
-	p("%s For(cs ...ct.Comp) { x.o.For(compsOf(cs)...) }\n", recv)
-	p("%s With(cs ...ct.Comp) { x.o.With(compsOf(cs)...) }\n", recv)
-	p("%s Without(cs ...ct.Comp) { x.o.Without(compsOf(cs)...) }\n", recv)
+	p("%s For(cs ...ct.Comp) { Spread(cs, func(s []ecs.Comp) { x.o.For(s...) }) }\n", recv)
+	p("%s With(cs ...ct.Comp) { Spread(cs, func(s []ecs.Comp) { x.o.With(s...) }) }\n", recv)
+	p("%s Without(cs ...ct.Comp) { Spread(cs, func(s []ecs.Comp) { x.o.Without(s...) }) }\n", recv)
 	p("%s Exclusive() { x.o.Exclusive() }\n", recv)
 	p("%s Do(fn func(ecs.Entity, []unsafe.Pointer)) {\n\tx.o.Do(func(e ecs.Entity, %s) { fn(e, []unsafe.Pointer{%s}) })\n}\n", recv, ptrArgs, ptrList)
 	p("%s Register() { x.o.Register(x.env.W) }\n", recv)
